@@ -67,6 +67,105 @@ pub fn tie_class(scores: &[f64]) -> TieClass {
     }
 }
 
+/// Tie class plus "some two DISTINCT scores are closer than `eps`" (round 2: nearly-equal / tiny
+/// scores, which the definition ranks as distinct however close they are).
+pub fn tie_info(scores: &[f64], eps: f64) -> (TieClass, bool) {
+    let mut s = scores.to_vec();
+    s.sort_by(|a, b| a.partial_cmp(b).unwrap());
+    let near = s.windows(2).any(|w| w[0] != w[1] && (w[1] - w[0]) < eps);
+    let tc = if s.first() == s.last() && s.len() > 1 {
+        TieClass::Constant
+    } else if s.windows(2).any(|w| w[0] == w[1]) {
+        TieClass::Tied
+    } else {
+        TieClass::Distinct
+    };
+    (tc, near)
+}
+
+/// The neighbouring f64 `steps` units in the last place away (x finite, positive, result positive).
+pub fn step_f64(x: f64, steps: i64) -> f64 {
+    assert!(x > 0.0 && x.is_finite());
+    let r = f64::from_bits((x.to_bits() as i64 + steps) as u64);
+    assert!(r > 0.0 && r.is_finite());
+    r
+}
+
+/// The neighbouring f32 `steps` units in the last place away, returned as the (exactly equal) f64.
+pub fn step_f32(x: f32, steps: i64) -> f64 {
+    assert!(x > 0.0 && x.is_finite());
+    let r = f32::from_bits((x.to_bits() as i64 + steps) as u32);
+    assert!(r > 0.0 && r.is_finite());
+    r as f64
+}
+
+// ---------------------------------------------------------------- exact regression reference on actual floats
+
+/// v = m * 2^e with m odd (or v = 0 -> None).
+fn decode(v: f64) -> Option<(i128, i32)> {
+    assert!(v.is_finite());
+    if v == 0.0 {
+        return None;
+    }
+    let bits = v.to_bits();
+    let neg = bits >> 63 == 1;
+    let be = ((bits >> 52) & 0x7ff) as i32;
+    let frac = bits & 0x000f_ffff_ffff_ffff;
+    let (mut m, mut e) = if be == 0 { (frac << 1, -1075) } else { (frac | 0x0010_0000_0000_0000, be - 1075) };
+    let tz = m.trailing_zeros();
+    m >>= tz;
+    e += tz as i32;
+    Some((if neg { -(m as i128) } else { m as i128 }, e))
+}
+
+fn pow2(e: i32) -> f64 {
+    assert!((-1022..=1023).contains(&e), "unit 2^{} outside the normal range", e);
+    f64::from_bits(((e + 1023) as u64) << 52)
+}
+
+/// Exact sums of the regression definitions for two vectors of ACTUAL floating-point values:
+/// every value is an integer multiple of the common unit 2^e; after subtracting y_true[0] (all three
+/// definitions are invariant under a common shift) the sums are evaluated in i128 without rounding.
+#[derive(Clone, Copy, Debug)]
+pub struct ExactReg {
+    /// sum (y - f)^2, sum |y - f|, n * sum (y - mean)^2  in units of unit^2, unit, unit^2
+    pub rss: i128,
+    pub ras: i128,
+    pub sst_n: i128,
+    pub unit: f64,
+}
+
+pub fn exact_reg(y: &[f64], f: &[f64]) -> ExactReg {
+    let n = y.len();
+    assert!(n > 0 && n == f.len());
+    let dec: Vec<Option<(i128, i32)>> = y.iter().chain(f.iter()).map(|v| decode(*v)).collect();
+    let emin = dec.iter().flatten().map(|d| d.1).min().unwrap_or(0);
+    let ints: Vec<i128> = dec
+        .iter()
+        .map(|d| match d {
+            None => 0,
+            Some((m, e)) => {
+                let sh = (*e - emin) as u32;
+                assert!(sh <= 64, "exact reference: exponent range of the inputs too wide");
+                m.checked_mul(1i128 << sh).expect("exact reference: mantissa overflow")
+            }
+        })
+        .collect();
+    let pivot = ints[0];
+    let lim = 1i128 << 46;
+    let (mut rss, mut ras, mut sa, mut saa) = (0i128, 0i128, 0i128, 0i128);
+    for i in 0..n {
+        let (a, b) = (ints[i] - pivot, ints[n + i] - pivot);
+        assert!(a.abs() < lim && b.abs() < lim, "exact reference: spread of the inputs too wide for i128 sums");
+        let d = a - b;
+        rss += d * d;
+        ras += d.abs();
+        sa += a;
+        saa += a * a;
+    }
+    ExactReg { rss, ras, sst_n: n as i128 * saa - sa * sa, unit: pow2(emin) }
+}
+
 /// Contingency table of two labellings given as class indices; empty rows / columns are dropped.
 pub fn table_of(c: &[usize], k: &[usize]) -> Vec<Vec<u64>> {
     let a = c.iter().max().map(|m| m + 1).unwrap_or(0);
@@ -278,15 +377,22 @@ pub fn score_family(fam: usize, n: usize, i: usize) -> i64 {
     }
 }
 
-pub const N_SCORE_TRANSFORMS: usize = 4;
-pub const SCORE_TRANSFORM_NAMES: [&str; N_SCORE_TRANSFORMS] = ["v", "v/(n+1)", "-v", "1e3*v-3.5"];
+pub const N_SCORE_TRANSFORMS: usize = 8;
+pub const SCORE_TRANSFORM_NAMES: [&str; N_SCORE_TRANSFORMS] =
+    ["v", "v/(n+1)", "-v", "1e3*v-3.5", "1e-17*v", "2^-60*v", "0.7 moved by v units in the last place (f64)", "0.7f32 moved by v units in the last place (f32)"];
+pub const TWO_M60: f64 = 8.673617379884035e-19; // 2^-60
 
 pub fn score_transform(tr: usize, n: usize, v: i64) -> f64 {
     match tr {
         0 => v as f64,
         1 => v as f64 / (n as f64 + 1.0),
         2 => -(v as f64),
-        _ => 1e3 * v as f64 - 3.5,
+        3 => 1e3 * v as f64 - 3.5,
+        // round 2: tiny and nearly-equal scores (distinct values stay distinct, equal stay equal)
+        4 => 1e-17 * v as f64,
+        5 => TWO_M60 * v as f64,
+        6 => step_f64(0.7, v),
+        _ => step_f32(0.7, v),
     }
 }
 
@@ -369,8 +475,9 @@ pub fn pred_family(fam: usize, truth: &[i64], i: usize) -> i64 {
     }
 }
 
-pub const SCALES: [f64; 5] = [1.0, 1e-6, 1e6, 9.094947017729282e-13, 1099511627776.0]; // 1, 1e-6, 1e6, 2^-40, 2^40
-pub const SCALE_NAMES: [&str; 5] = ["1", "1e-6", "1e6", "2^-40", "2^40"];
+// 1, 1e-6, 1e6, 2^-40, 2^40; round 2: 2^-30 (ss_tot < f64 epsilon) and 2^-13 (ss_tot < f32 epsilon)
+pub const SCALES: [f64; 7] = [1.0, 1e-6, 1e6, 9.094947017729282e-13, 1099511627776.0, 9.313225746154785e-10, 0.0001220703125];
+pub const SCALE_NAMES: [&str; 7] = ["1", "1e-6", "1e6", "2^-40", "2^40", "2^-30", "2^-13"];
 
 // ---------------------------------------------------------------- label renamings (cluster scores)
 
